@@ -13,8 +13,8 @@
 //!     only the dataset-consumption clauses are judged - fills may legitimately arrive after
 //!     Shutdown, DESIGN C20), or
 //!   * mode "gated": the harness `GatedMarketData` (a `BacktestMarketData`): the same shared dataset,
-//!     each `stream()` call gets its own tag; the stream holds back the item after event 1 until
-//!     the initial account snapshot has been processed and the item after every decision point
+//!     each `stream()` call gets its own tag; the stream holds back its first item until the
+//!     initial account snapshot has been processed and the item after every decision point
 //!     until every order the run has sent so far is fully answered (response + balance + trade
 //!     processed by THAT run's engine). `backtest()`, `SystemBuild::init`,
 //!     `shutdown_after_backtest` are untouched; the scenario becomes deterministic.
@@ -265,6 +265,7 @@ pub struct Sink {
     pub anomalies: Vec<String>,
     pub calls: usize,
     pub account_reconnects: usize,
+    pub tag_mismatch: bool,
 }
 
 #[derive(Debug, Clone)]
@@ -436,12 +437,20 @@ impl ActStrategy {
         last
     }
 
-    fn report(&self, s: &Sink) {
-        let Some(tag) = s.tags.first().copied() else { return };
-        if tag == 0 {
+    /// Tells the data source of this run how far the run has got. `stream()` calls are made in
+    /// argument order (`try_join_all` polls the backtest futures in order and nothing yields
+    /// before `stream()`), so run r is fed by stream r+1; the tag carried by every event verifies
+    /// it - a mismatch is a tool error, never a verdict.
+    fn report(&self, s: &mut Sink) {
+        if self.shared.slots.is_empty() {
             return;
         }
-        let Some(slot) = self.shared.slots.get(tag as usize - 1) else { return };
+        if let Some(tag) = s.tags.first().copied() {
+            if tag as usize != self.run + 1 {
+                s.tag_mismatch = true;
+            }
+        }
+        let Some(slot) = self.shared.slots.get(self.run) else { return };
         let n = s.fired.len();
         let settled = s.n_resp >= n && s.n_bal >= n && s.n_trade >= n;
         slot.send_modify(|p| {
@@ -489,7 +498,7 @@ impl AlgoStrategy for ActStrategy {
                 }
             }
         }
-        self.report(&s);
+        self.report(&mut s);
         (std::iter::empty(), opens)
     }
 }
@@ -551,6 +560,8 @@ pub struct GatedMarketData {
     next: AtomicUsize,
     pub gate_timeouts: Arc<AtomicUsize>,
     pub extra_streams: Arc<AtomicUsize>,
+    /// probe only: `stream()` takes this long (like a source that loads its data lazily)
+    pub stream_delay: Duration,
 }
 
 impl BacktestMarketData for GatedMarketData {
@@ -563,6 +574,9 @@ impl BacktestMarketData for GatedMarketData {
     async fn stream(&self) -> Result<impl Stream<Item = Item> + Send + 'static, BarterError> {
         let j = self.next.fetch_add(1, Ordering::SeqCst);
         let tag = (j + 1) as u32;
+        if !self.stream_delay.is_zero() {
+            tokio::time::sleep(self.stream_delay).await;
+        }
         let rx = self.slots.get(j).cloned();
         if rx.is_none() {
             self.extra_streams.fetch_add(1, Ordering::SeqCst);
@@ -579,9 +593,8 @@ impl BacktestMarketData for GatedMarketData {
                 // dataset ids are 1-based: `idx` items are out, the one about to be emitted is idx+1
                 if let Some(rx) = rx.as_mut() {
                     let emitted = idx as u32;
-                    // (the run learns which stream feeds it from the first market item: only then
-                    //  can it report the snapshot)
-                    let need_snap = items >= 1;
+                    // nothing is emitted before the run has processed its initial account snapshot
+                    let need_snap = true;
                     let need_settled = gates.iter().rev().find(|g| **g <= emitted).copied().unwrap_or(0);
                     let wait = rx.wait_for(|p| (!need_snap || p.snap) && p.settled >= need_settled);
                     match tokio::time::timeout(GATE_TIMEOUT, wait).await {
@@ -726,7 +739,8 @@ fn plan(seed: u64, tier: &str) -> Vec<Value> {
         // shared decision points (never a Reconnecting item)
         let mut points: Vec<u32> = vec![];
         while points.len() < 6 {
-            let k = rng.random_range(1..=n as u32);
+            // (never the first market item: see ASSUMPTIONS in bin/props/c20.py - HistoricalClock)
+            let k = rng.random_range(2..=n as u32);
             if !recs.contains(&k) && !points.contains(&k) {
                 points.push(k);
             }
@@ -870,6 +884,7 @@ fn run_scenario(scn: &Value, trace: &mut Out, results: &mut Out, totals: &mut Va
             next: AtomicUsize::new(0),
             gate_timeouts: gate_timeouts.clone(),
             extra_streams: extra_streams.clone(),
+            stream_delay: Duration::from_millis(scn["stream_delay_ms"].as_u64().unwrap_or(0)),
         };
         let args = Arc::new(BacktestArgsConstant { instruments, executions, market_data: md, summary_interval: Daily, engine_state });
         catch(|| {
@@ -946,6 +961,9 @@ fn run_scenario(scn: &Value, trace: &mut Out, results: &mut Out, totals: &mut Va
             let mut e = line("Anomaly");
             e["kind"] = json!(a);
             trace.line(&e);
+        }
+        if sk.tag_mismatch {
+            tool_error(&format!("scenario {name}: run {r} was fed by stream {:?} - stream() calls were not made in argument order", sk.tags));
         }
         let n_orders = sk.fired.len();
         let timeouts = sk.order_states.iter().filter(|o| o["detail"]["state"].as_str().map(|x| x.contains("Timeout")).unwrap_or(false)).count();
